@@ -8,8 +8,9 @@ THEOREMS = ["qmd_lookup_spec", "qmd_invisible", "qmeta_ghost", "inv_run", "qmdTo
 EXPLANATION = ("Theorems: for every well-formed history, a lookup on any stream returns the value most recently set for that key on the stream's own derivation path, or nothing (qmd_lookup_spec, by an invariant proved over every operation including the shallow-copy QMetaData makes and the merge with the copied node's dictionary); the field tree of every stream's query - hence dump, hash and executor argument - is the term the same chain builds without any QMetaData (qmd_invisible). Correspondence: lookups of every key on every stream after every step. Oracle: per-path dictionary reference in Python; dump/hash/executor-argument equality with a twin chain built without QMetaData.")
 ASSUMPTIONS = ["QMetaData dictionaries have pairwise distinct keys (they are Python dicts) - hypothesis Op.wf"]
 RULE = (
-    "seeded histories (harness/streams.py: gen_history) of 4-20 operations over a forest of streams on 1-4 datasets: "
-    "Select/Where/SelectMany with text lambdas, MetaData (empty and non-empty), QMetaData (new keys, repeated keys with "
+    "seeded histories (harness/streams.py: gen_history) of 4-20 operations over a forest of streams on 1-4 datasets "
+    "(root EventDataset(...) nodes with 0-2 extra arguments): "
+    "Select/Where/SelectMany with text lambdas, MetaData (empty and non-empty, empty ones stacked directly on each other and then executed), QMetaData (new keys, falsy values 0 and '', repeated keys with "
     "equal/different values, consecutive calls, on roots and derived streams), the four As* terminals, value()/value_async() "
     "with and without override executor and title, executors that return or raise, and batches of 2-4 concurrently awaited "
     "value_async() calls completed in a generated permutation; after EVERY step every live stream is observed; "
